@@ -32,6 +32,7 @@ type Request struct {
 	Kind       string          `json:"kind"` // edit-json edit-xml find query where setvalue
 	Strategy   string          `json:"strategy,omitempty"`
 	Path       string          `json:"path"`
+	From       string          `json:"from,omitempty"` // find/query/where: first select this (valid) path from the root, then Find Path from there
 	Doc        string          `json:"doc,omitempty"`
 	Query      string          `json:"query,omitempty"`
 	Value      json.RawMessage `json:"value,omitempty"`
@@ -145,7 +146,19 @@ func exec(env *sess.Env, st store.Store, rq *Request, log *kit.Log) (o ReqOutcom
 		if rq.Query != "" {
 			p += "?" + rq.Query
 		}
-		sel, err := root.Find(p)
+		base := root
+		if rq.From != "" {
+			var err error
+			if base, err = root.Find(rq.From); err != nil {
+				return fail(err)
+			}
+			if base == nil {
+				o.Kind = "ok"
+				o.Err = "starting point not present"
+				return o
+			}
+		}
+		sel, err := base.Find(p)
 		if err != nil {
 			return fail(err)
 		}
